@@ -374,6 +374,27 @@ func oraclePErr(c PErrCase) error {
 		ft := c.Tokens[c.First]
 		return fmt.Errorf("%s: offending token %q is token %d at %d:%d, error located at %d:%d (token %d)", c.Kind, ft.Text, c.First, ft.Line, ft.Col, l.Line, l.Column, hit)
 	}
+	// the recovery entry point runs the same statement parser: its first error is this error
+	// and must be located at the same place
+	p2 := parser.NewParser()
+	_, rerrs := p2.ParseWithRecoveryFromModelTokens(toks)
+	if len(rerrs) > 0 {
+		var re *goerrors.Error
+		if errors.As(rerrs[0], &re) && re.Location.Line >= 1 && re.Location.Column >= 1 {
+			hx.Class("parser_error_location", "recovery_location_compared")
+			if re.Location != l {
+				return fmt.Errorf("%s: strict parsing locates the error at %d:%d, recovery parsing locates the same (first) error at %d:%d", c.Kind, l.Line, l.Column, re.Location.Line, re.Location.Column)
+			}
+		}
+		// the recovery error's own Line/Column fields describe the same error
+		var pe *parser.ParseError
+		if errors.As(rerrs[0], &pe) && pe.Line >= 1 {
+			hx.Class("parser_error_location", "parse_error_fields_compared")
+			if pe.Line != l.Line || pe.Column != l.Column {
+				return fmt.Errorf("%s: the recovery error says line %d, column %d in its own fields, but the error it wraps (and strict parsing) is located at %d:%d", c.Kind, pe.Line, pe.Column, l.Line, l.Column)
+			}
+		}
+	}
 	return nil
 }
 
@@ -387,7 +408,7 @@ func minInt(a, b int) int {
 var perrCheck = hx.NewCheck("parser_error_location", oraclePErr)
 
 func TestParserErrorLocation(t *testing.T) {
-	hx.Rule("parser_error_location", "G-SQL statement with one token-level corruption (delete/duplicate/swap/replace/insert/truncate, or a stray ']' that no viable prefix admits), laid out over several lines with comments, parsed with position tracking; a set error location must be the start of a token at or after the first corrupted token, and exactly the stray token for that family; non-trivial = corruption not on line 1; distinct = (kind, position, layout)")
+	hx.Rule("parser_error_location", "G-SQL statement with one token-level corruption (delete/duplicate/swap/replace/insert/truncate, or a stray ']' that no viable prefix admits), laid out over several lines with comments, parsed with position tracking; a set error location must be the start of a token at or after the first corrupted token, and exactly the stray token for that family; the first error of recovery parsing of the same tokens must be located at the same place; non-trivial = corruption not on line 1; distinct = (kind, position, layout)")
 	perrCheck.Rapid(t, hx.N(120000, 1200000), func(rt *rapid.T) PErrCase {
 		g := sqlgen.New(rt, sqlgen.AllFeatures())
 		st := sqlgen.Statement(g)
